@@ -91,6 +91,7 @@ func (w *dwaiter) poll() byte {
 // it knows which event to wait for), the recorded line is what it observes.
 type debConductor struct {
 	label   string
+	me      int // id of the scenario's goroutine (creator of the flusher)
 	d       *gocql.VerifDebouncer
 	entered int64
 	release chan error
@@ -106,6 +107,13 @@ type debConductor struct {
 }
 
 func (c *debConductor) flusherGone() bool { return labelledIn(c.label, flusherFrame) == 0 }
+
+// flusherParkedInSelect: the flusher goroutine (created by this scenario's goroutine inside newRefreshDebouncer) is
+// parked in its select, not merely on its way there and not made ready by anything.
+func (c *debConductor) flusherParkedInSelect() bool {
+	st := statesOf(flusherFrame, c.me)
+	return len(st) == 1 && st[0] == "select"
+}
 
 // mirrorSettle: the flusher runs until it is held inside the refresh function or has returned.
 func (c *debConductor) mirrorSettle() {
@@ -185,11 +193,25 @@ func (c *debConductor) await() string {
 			got = c.observe()
 			return got == want
 		}
-		if !ref && throttle() && c.flusherGone() {
-			if _, l, _ := c.d.State(); l > 0 {
-				got = c.observe()
-				stranded = got != want
-				return true
+		// not (yet) what is expected. Decided early only by an event after which nobody can release a waiter any more:
+		// the flusher has passed its release point — it is inside the NEXT refresh, it has returned, or (nothing being
+		// ready for it) it is parked in its select again — and a second look still shows the waiter pending.
+		if throttle() {
+			settled := false
+			switch {
+			case c.mRefreshing:
+				settled = ref
+			case c.mExited:
+				settled = !ref && c.flusherGone()
+			default:
+				settled = !ref && c.flusherParkedInSelect()
+			}
+			if settled {
+				if ref2, ws2 := c.cheap(); ref2 != c.mRefreshing || ws2 != string(c.mExp) {
+					got = c.observe()
+					stranded = true
+					return true
+				}
 			}
 		}
 		return false
@@ -272,11 +294,23 @@ func runDeb(label string, fixed []string, r *vh.Rng, maxActs int) (op, impl, obs
 }
 
 func runDebLabelled(label string, fixed []string, r *vh.Rng, maxActs int) (string, string, string) {
-	c := &debConductor{label: label, release: make(chan error)}
+	c := &debConductor{label: label, me: goid(), release: make(chan error)}
 	c.d = gocql.VerifNewRefreshDebouncer(100*time.Microsecond, func() error {
 		atomic.AddInt64(&c.entered, 1)
 		return <-c.release
 	})
+	// newRefreshDebouncer creates its timer running and stops it right away: with an interval this short the timer may
+	// have fired in between (old timer-channel semantics: the value stays in the channel), and the flusher then starts
+	// with a refresh nobody asked for. It is let through before the schedule starts (event: the flusher is parked in
+	// its select with nothing ready).
+	patient(watchdogFull, profiled(func() bool {
+		if atomic.LoadInt64(&c.entered) > c.fins {
+			c.fins++
+			c.release <- nil
+			return false
+		}
+		return c.flusherParkedInSelect() && atomic.LoadInt64(&c.entered) == c.fins
+	}))
 	var acts, states []string
 	states = append(states, c.await())
 	do := func(a string) {
@@ -525,6 +559,7 @@ func runSessRefLabelled(label string, pending int, parked bool) (string, int) {
 		return "fatal:" + err.Error(), 0
 	}
 	d := gocql.VerifSessionRingRefresher(s)
+	me := goid()
 	var returned int64
 	call := func() {
 		go func() {
@@ -589,11 +624,14 @@ func runSessRefLabelled(label string, pending int, parked bool) (string, int) {
 			fns = "-"
 			return ret == callers
 		}
+		// stranded for good: the flusher has returned and every caller that has not returned is still BLOCKED in its
+		// channel receive inside Session.refreshRing (a caller whose channel was closed is runnable, not blocked)
 		if labelledIn(label, flusherFrame) == 0 {
-			if _, l, _ := d.State(); l > 0 && ret+l == callers {
-				n2, f2, raw2 := gocqlGoroutines(label)
-				if n2 == l && len(f2) == 1 && strings.HasSuffix(f2[0], "(*Session).refreshRing") {
-					leaked, fns, raw = n2, f2[0], raw2
+			if k := blockedInChanReceive(".(*Session).refreshRing", me); k > 0 && ret+k == callers && k == leaked {
+				if _, l, _ := d.State(); parked || l == k {
+					// parked: every caller registered before Close. Not parked: the callers raced Session.Close; those
+					// still listening on a broadcaster nobody stopped registered after the flusher had returned
+					fns = "(*Session).refreshRing"
 					strandedForGood = true
 					return true
 				}
@@ -614,4 +652,53 @@ func runSessRefLabelled(label string, pending int, parked bool) (string, int) {
 	}
 	return fmt.Sprintf("sessref pending=%d parked=%d waiters=%d returned=%d closeret=%d leaked=%d stack=%s open=%d", pending, b2i(parked), callers,
 		int(atomic.LoadInt64(&returned))+racedLate, closeret, leaked, fns, openSockets(node)), racedLate
+}
+
+// statesOf: the scheduler states ("select", "chan receive", "runnable", "sync.Mutex.Lock", …, as printed in the runtime's
+// stack dump) of the goroutines created by goroutine `creator` that have a frame whose function contains `frame`.
+// A goroutine parked in a select / channel receive that has been made ready is listed as runnable.
+func statesOf(frame string, creator int) []string {
+	var out []string
+	by := fmt.Sprintf(" in goroutine %d\n", creator)
+	for _, blk := range strings.Split(stacks(), "\n\n") {
+		blk += "\n"
+		lines := strings.SplitN(blk, "\n", 2)
+		if len(lines) < 2 || !strings.Contains(lines[1], frame) || !strings.Contains(lines[1], by) {
+			continue
+		}
+		i, j := strings.Index(lines[0], "["), strings.LastIndex(lines[0], "]")
+		if i < 0 || j < i {
+			continue
+		}
+		st := lines[0][i+1 : j]
+		if k := strings.Index(st, ","); k >= 0 {
+			st = st[:k]
+		}
+		out = append(out, st)
+	}
+	return out
+}
+
+func blockedInChanReceive(frame string, creator int) int {
+	n := 0
+	for _, st := range statesOf(frame, creator) {
+		if st == "chan receive" {
+			n++
+		}
+	}
+	return n
+}
+
+// goid: the id of the calling goroutine (from its own stack header).
+func goid() int {
+	buf := make([]byte, 64)
+	buf = buf[:runtime.Stack(buf, false)]
+	id := 0
+	for _, ch := range strings.TrimPrefix(string(buf), "goroutine ") {
+		if ch < '0' || ch > '9' {
+			break
+		}
+		id = id*10 + int(ch-'0')
+	}
+	return id
 }
